@@ -922,6 +922,10 @@ func (env *specEnv) call(x *SCall) SV {
 		name, _ := strconv.Unquote(lit.Val)
 		id := e.W.typeIDByName(name)
 		return SV{T: tEq(sx("i-typ", v.T), tInt(int64(id))), Sort: "Bool"}
+	case "nolocks":
+		// nolocks(): this goroutine holds exactly the locks it held at function entry
+		e.heapDecl("$held", heldSort)
+		return SV{T: tEq(e.heldArr(env.cur), smtName("$held@0")), Sort: "Bool"}
 	case "zero":
 		// zero(e): the zero value of e's static type
 		v := arg(0)
